@@ -18,6 +18,7 @@ Definition gcase_id (c : gcase) : N :=
 
 Section Tie16.
   Variable GPB : N.
+  Variable SAFE : bool.   (* which loop arithmetic the compiled crate has (reflected) *)
 
   Definition run_of (runs : list (N * option bool)) (g : N) : option (bool * unit) :=
     match find (fun p => fst p =? g) runs with
@@ -39,7 +40,7 @@ Section Tie16.
   Definition est_queries (cap : N) (run : N -> option (bool * unit)) : list N :=
     cap :: (if succ run cap then
               bisect_q run 64 21000 cap
-              ++ match bisect GPB true run 64 21000 cap with Some (Ok e) => [e] | _ => [] end
+              ++ match bisect GPB SAFE true run 64 21000 cap with Some (Ok e) => [e] | _ => [] end
             else []).
 
   Definition lN_eqb := list_eqb N.eqb.
@@ -85,7 +86,7 @@ Section Tie16.
     | GEstimate _ cap runs got =>
         let run := run_of runs in
         lN_eqb (est_queries cap run) (map fst runs)
-        && match estimate GPB true cap run 64, got with
+        && match estimate GPB SAFE true cap run 64, got with
            | Some (Ok e), Some g => e =? g
            | Some Err, None => true
            | _, _ => false
@@ -93,7 +94,7 @@ Section Tie16.
     | GEstimateMany _ cap n runs got =>
         let runm := runm_of runs in
         list_eqb lN_eqb (estm_queries cap (N.to_nat n) runm) (map fst runs)
-        && match estimate_many GPB true cap runm 64 (N.to_nat n), got with
+        && match estimate_many GPB SAFE true cap runm 64 (N.to_nat n), got with
            | Some (Ok gs), Some g => lN_eqb gs g
            | Some Err, None => true
            | _, _ => false
